@@ -9,7 +9,9 @@ CONSTANTS Side, Only     \* Only: "all" | "burst" (just the scripts that have fr
 
 Faults == {"eof", "reset", "partial", "close", "closeErr", "end", "endErr", "detachS", "detachSErr", "detachR", "silentEof", "detachSnc", "detachRnc",
            \* ..A: the peer's error condition lies in the reserved amqp: namespace but is not one this build knows (a newer or vendor-extended peer)
-           "closeErrA", "endErrA", "detachSErrA"}   \* ..nc: detach without closing
+           "closeErrA", "endErrA", "detachSErrA",   \* ..nc: detach without closing
+           \* the peer refuses the sending link whose attach is pending: it answers with an attach that has no target and closes it with an error
+           "refuseS"}
 \* cut: number of completed steps before the failure; pend: what is pending when it strikes
 Cuts == 0..6
 Pends == {"step", "none", "send", "recv", "close", "end", "detach", "burst1", "burst2", "burst3", "burst5"}   \* close / end / detach: the local teardown call crosses the failure on the wire
@@ -19,6 +21,7 @@ Init == z = [k |-> "start"]
 Applicable(c, f, p) ==
   /\ (f \in {"end", "endErr", "endErrA"} => c >= 2) /\ (f \in {"detachS", "detachSErr", "detachSnc", "detachSErrA"} => c >= 3)
   /\ (f \in {"closeErrA", "endErrA", "detachSErrA"} => p \in {"none", "send", "recv"} /\ c \in {4, 6}) /\ (f \in {"detachR", "detachRnc"} => c >= 4)
+  /\ (f = "refuseS" => c = 2 /\ p = "step" /\ Side = "client")
   /\ (p = "send" => c >= 3) /\ (p = "recv" => c >= 4) /\ (p = "step" => c <= 5)
   /\ (p = "close" => c >= 1) /\ (p = "end" => c >= 2) /\ (p = "detach" => c >= 3)
   \* (answering a closing detach with a non-closing one is itself a violation by the peer: not a failure to propagate)
@@ -70,6 +73,7 @@ Fault(f) == CASE f = "eof" -> <<[e |-> "PEof", keep_read |-> TRUE]>>
               [] f = "endErr" -> <<PF("end", 3, [err |-> "x:ended"])>>
               [] f = "detachS" -> <<PF("detach", 3, [h |-> 5, closed |-> TRUE, err |-> ""])>>
               [] f = "detachSErr" -> <<PF("detach", 3, [h |-> 5, closed |-> TRUE, err |-> "x:gone"])>>
+              [] f = "refuseS" -> <<PF("attach", 3, [name |-> "L1", h |-> 5, role |-> "r", snd |-> 2, rcv |-> 0, tgt |-> FALSE]), PF("detach", 3, [h |-> 5, closed |-> TRUE, err |-> "x:refused"])>>
               [] f = "detachSnc" -> <<PF("detach", 3, [h |-> 5, closed |-> FALSE, err |-> "x:gone"])>>
               [] f = "detachRnc" -> <<PF("detach", 3, [h |-> 6, closed |-> FALSE, err |-> "x:gone"])>>
               [] OTHER -> <<PF("detach", 3, [h |-> 6, closed |-> TRUE, err |-> "x:gone"])>>
